@@ -86,6 +86,10 @@ def run_case(c):
     t, N, B, se, E = c["type"], c["N"], c["B"], c["se"], c["E"]
     n = 2
     state = make_state(t, n, c.get("seed", 0))
+    for _ in range(c.get("_rep", 0)):
+        # earlier fit() calls on the same state object (history): unstopped one-epoch runs without callbacks
+        kw0 = {"input_bases": np.array([["Z", "Z"] if k % 2 == 0 else ["X", "Y"] for k in range(N)]).reshape(N, n)} if t != "positive" else {}
+        state.fit(torch.tensor([R.index_to_row(k % 4, n) if k % 2 == 0 else [0, 0] for k in range(N)], dtype=torch.double), epochs=1, pos_batch_size=B, lr=0.1, **kw0)
     data = torch.tensor([R.index_to_row(k % 4, n) if k % 2 == 0 else [0, 0] for k in range(N)], dtype=torch.double)   # rotated rows: outcome 00
     bases = np.array([["Z", "Z"] if k % 2 == 0 else ["X", "Y"] for k in range(N)]).reshape(N, n)
     trace = []
@@ -120,6 +124,23 @@ def run_case(c):
     h0 = phash(state)
     form = c.get("cb_form", "list")
     cbs_arg = tuple(cbs) if form == "tuple" else cbs
+    if form == "nested_shared":
+        # CallbackList is itself a callback and a mutable sequence: one shared list object is used for a first fit(), a member is
+        # removed, and the same object is used again - the removed callback must not see any event of the second run
+        from qucumber.callbacks import CallbackList
+        shared = CallbackList(cbs + [mk(99, "class")])
+        keep_inject, inject = inject, None
+        kw0 = dict(epochs=max(se, 1), starting_epoch=max(se, 1), pos_batch_size=B, lr=0.1, k=1, callbacks=[shared])
+        if t != "positive":
+            kw0["input_bases"] = bases
+        state.fit(data, **kw0)
+        del shared[len(shared) - 1]
+        del trace[:]
+        counter[0] = 0
+        inject = keep_inject
+        state.stop_training = bool(c.get("preset"))
+        cbs_arg = [shared]
+        h0 = phash(state)
     kw = dict(epochs=E, pos_batch_size=B, starting_epoch=se, lr=0.1, k=1, callbacks=cbs_arg, time=c.get("time", False))
     if c.get("nbs") is not None:
         kw["neg_batch_size"] = c["nbs"]
@@ -130,6 +151,13 @@ def run_case(c):
 
 
 def check(c):
+    r = None
+    for rep in range(c.get("fits", 1)):
+        r = check_one(dict(c, _rep=rep))
+    return r
+
+
+def check_one(c):
     N, B, se, E = c["N"], c["B"], c["se"], c["E"]
     ncb = len(c["cbs"])
     nb = -(-N // B)
@@ -190,7 +218,7 @@ def sampled(draw, tier):
     c = {"type": draw(st.sampled_from(gen.TYPES)), "N": draw(st.integers(1, 6)), "B": draw(st.integers(1, 4)), "se": draw(st.integers(0, 3)),
          "E": draw(st.integers(0, 4)) if draw(st.integers(0, 9)) else draw(st.integers(9, 13)), "cbs": [draw(st.sampled_from(["class", "lambda"])) for _ in range(ncb)], "time": draw(st.booleans()),
          "seed": draw(st.integers(0, 2 ** 31 - 1)), "hooks_return": draw(st.booleans()), "nbs": draw(st.one_of(st.none(), st.integers(1, 6))),
-         "cb_form": draw(st.sampled_from(["list", "list", "tuple"]))}
+         "cb_form": draw(st.sampled_from(["list", "list", "tuple", "nested_shared"])), "fits": draw(st.sampled_from([1, 1, 1, 2, 3]))}
     if draw(st.integers(0, 29)) == 0:
         c.update(N=draw(st.integers(1025, 1300)), B=draw(st.sampled_from([400, 500, 1000])), E=c["se"] + draw(st.integers(1, 2)))     # a large data set
     mode = draw(st.sampled_from(["none", "preset", "inject", "inject", "inject"]))
